@@ -35,9 +35,12 @@ def check(run):
                        cname, fmt, [unparse(c.func) for c in dumps], cname, fmt, [unparse(c.func) for c in loads], lib))
             # R2 common intermediate
             arg = unparse(dumps[0].args[0]) if dumps and dumps[0].args else None
-            ok = arg in ("self._asdict()", "dictify(self)", "asdict(self)")
+            # the reader side always goes through datify(), which honours the class's _datify hook; the writer must go through the
+            # matching hook-honouring intermediate (self._asdict() -> dictify(self)), not dataclasses.asdict, which bypasses _dictify
+            ok = arg in ("self._asdict()", "dictify(self)")
             run.ob("C28.R2", "%s:%s._as%s:serialises-asdict" % (DM, cname, fmt), ok, run.site(asf),
-                   "" if ok else "_as%s serialises `%s`, not the dict intermediate self._asdict()" % (fmt, arg))
+                   "" if ok else "_as%s serialises `%s`, not the hook-honouring dict intermediate self._asdict() that _from%s's datify() inverts: "
+                   "a data object with a _dictify/_datify pair (or an overridden _asdict) does not round-trip in this format" % (fmt, arg, fmt))
             dvar = None
             for n in walk_local(fromf.node):
                 if isinstance(n, ast.Assign) and n.value in loads and isinstance(n.targets[0], ast.Name):
@@ -54,7 +57,7 @@ def check(run):
             run.ob("C28.R2", "%s:%s._from%s:instance-check" % (DM, cname, fmt), ok, run.site(fromf),
                    "" if ok else "_from%s can return something that is not an instance of cls (a plain dict when datify gives up)" % fmt)
             shapes.setdefault(fmt, []).append((lib_of(dumps[0])[0] if dumps else None, lib_of(loads[0])[0] if loads else None,
-                                               arg in ("self._asdict()", "dictify(self)", "asdict(self)"), bool(dat), bool(guard),
+                                               "hooked" if arg in ("self._asdict()", "dictify(self)") else arg, bool(dat), bool(guard),
                                                sorted(k.arg for k in dumps[0].keywords) if dumps else None,
                                                sorted("%s=%s" % (k.arg, unparse(k.value)) for k in loads[0].keywords) if loads else None))
     for fmt, pair in sorted(shapes.items()):
@@ -106,6 +109,7 @@ def _datify_shape(dat):
 
 
 MUTANTS = [
+    Mutant("mgpk-writer-bypasses-dictify-hook", DM, "RawDom._asmgpk", "msgpack.dumps(self._asdict())", "msgpack.dumps(asdict(self))", {"C28.R2", "C28.R1"}),
     Mutant("ascbor-with-msgpack", DM, "RawDom._ascbor", "return cbor.dumps(self._asdict())", "return msgpack.dumps(self._asdict())", {"C28.R1"}, canary=True),
     Mutant("asjson-of-tuple", DM, "RawDom._asjson", "json.dumps(self._asdict(),", "json.dumps(astuple(self),", {"C28.R2"}, canary=True),
     Mutant("fromjson-no-instance-check", DM, "IceRawDom._fromjson", "        if not isinstance(dom, cls):\n            raise ValueError(\"Invalid dict={d} to datify as dataclass={cls}.\")\n", "", {"C28.R2"}, canary=True),
